@@ -27,8 +27,11 @@ SQ3_PI = np.sqrt(3.0) / np.pi
 def jobs(tier, seed):
     n_jobs = 16 if tier == "quick" else 32
     n_cases = 250 if tier == "quick" else 2500
-    return [{"name": f"lik-{j}", "seed": seed, "j": j, "n_cases": n_cases,
+    out = [{"name": f"lik-{j}", "seed": seed, "j": j, "n_cases": n_cases,
              "n_norm": 3 if tier == "quick" else 12} for j in range(n_jobs)]
+    if tier == "thorough":
+        out.append({"name": "repo-tests", "seed": seed, "j": 999, "mode": "repo_tests"})
+    return out
 
 
 # ---------------------------------------------------------------- reference model
@@ -88,6 +91,10 @@ class Model:
 
 
 def run_job(job, rec):
+    if job.get("mode") == "repo_tests":
+        from vmon import repotests
+
+        return repotests.run(rec, ID)
     from inference import likelihoods as lk
     from scipy.integrate import quad
     from vmon.contracts import attach
